@@ -38,6 +38,7 @@ pub fn prop() -> Prop {
         independent: &["single-item VerifyingKey::verify as the reference semantics"],
         ref_sample: |_| 0,
         required_probes: &["batch_all_valid_multi", "empty_batch_rejected", "invalid_wrong_message", "invalid_wrong_key", "invalid_altered_response", "invalid_altered_commitment", "cancel_pair_rejected", "batch_size_ge_32", "frost_signature_in_batch", "invalid_first_position", "invalid_last_position"],
+        prepare: None,
     }
 }
 
